@@ -63,6 +63,7 @@ var fieldWriteExceptions = map[string]string{
 	"ClientConfig.AllowedProtocols":    "NewClient defaults: construction",
 	"ClientConfig.Logger":              "NewClient defaults: construction",
 	"ClientConfig.PluginLogBufferSize": "NewClient defaults: construction",
+	"ClientConfig.UnixSocketConfig":    "NewClient defaults: construction",
 	"UnixSocketConfig.socketDir":       "written in Start under Client.l through Client.unixSocketCfg",
 	"tls.Config.RootCAs":               "written in loadServerCert under Client.l, before any connection uses the config",
 	"tls.Config.ClientCAs":             "as above",
